@@ -44,6 +44,10 @@ def gen(rng, tier):
         for nd in spec["nodes"]:
             nd["demand"] = "0"
         spec["cap"], spec["init"] = "100", "50"
+        if rng.random() < 0.35:
+            # costs of both signs and of some size: a penalty bound computed from a sum in which they cancel is too small
+            for a in spec["arcs"]:
+                a[3] = fs(Fraction(a[3]) * rng.choice([-3, -2, 2, 3]))
         if rng.random() < 0.3:
             # a depot that opens late: every formulation must start the clock there
             for nd in spec["nodes"][1:]:
